@@ -1774,6 +1774,9 @@ def check(ctx: Ctx) -> None:
     check_dispatch(ctx)
     check_names(ctx, na)
     check_determinism(ctx)
+    from . import _extra
+    _extra.check_fetch_none_tests(ctx, 'R16.5')
+    _extra.check_store_unconditional(ctx, 'R16.6')
 
 
 SPEC = PropSpec(
